@@ -146,6 +146,11 @@ REWRITES = {
         "`v.into_iter().filter(f)` (followed by .collect()) is the function vfilter(v, f) with the assumed std contract"),
     "range_inclusive_count": (r"for _ in 1\.\.=(\w+) \{", r"for _i in 0..\1 {",
         "`for _ in 1..=n` runs the body n times, as `for _i in 0..n` does (vstd specifies Range, not RangeInclusive)"),
+    "regex_cache_type": (r"Option<Rc<RefCell<SizedCache<String, Rc<Result<Regex, Error>>>>>>", r"Option<Rc<vcache::Cell>>",
+        "RefCell<SizedCache<..>> is the opaque cell `vcache::Cell` (interior mutability is outside Verus); see the cache invariant in unit RX"),
+    "regex_cache_new": (r"Rc::new\(RefCell::new\(SizedCache::with_size\((\w+)\)\)\)", r"Rc::new(vcache::Cell::with_size(\1))",
+        "the constructor of the opaque cell"),
+    "str_into_string": (r"\b(regex(?:\.\w+\(\))*)\.into\(\)", r"vstr::string_of(\1)", "`s.into()` of a &str into the String key is a String with the same text"),
     "str_to_string": (r"\b(s|str|word|text)\.to_string\(\)", r"vstr::to_string_of(\1)", "&str::to_string() is a String with the same text"),
     "pub_crate": (r"\bpub\(crate\)\s+", r"pub ", "visibility is irrelevant in a single file"),
     "deref_clone": (
